@@ -14,7 +14,7 @@ from . import c10
 ID = 'C18'
 LEVEL = 'model_checking'
 RULE = ('corpus: every clause shape with 0..3 variables that occur only inside head structures x 0..4 body-only variables '
-        'x 0..2 anonymous variables, the body trees with <= N operators in the C05 context, the repository\'s sample files. '
+        'x 0..2 anonymous variables, the body trees with <= N operators in the C05 context, the repository\'s sample files, and 7 programs that are rejected at different stages (syntax, goal not callable, head name, too large, unsupported term). '
         '(a) environment exploration of set-iteration order: the names set/frozenset are shadowed in the compiler modules by '
         'an order-controlled stand-in; every call is a choice point and EVERY permutation of its elements is explored at '
         'one call site (thorough: at every pair of call sites), all other sites keeping insertion order - the output must '
@@ -54,6 +54,15 @@ def corpus(tier):
             out.append(('tree-%d-%d' % (n, i), show_program(prog)))
     for fn, text in c10.sample_files():
         out.append((fn, text))
+    # programs that are rejected at different stages (each after some anonymous / fresh variables):
+    # a rejected compilation must not leave anything behind for the next one
+    out += [('fail-syntax', 'ok(_, X) :- q(X, _).\nfoo(_, a\n'),
+            ('fail-goal-not-callable', 'a(_, _) :- q(_), X.\n'),
+            ('fail-goal-number', 'b(_) :- q(_, Y), 3.\n'),
+            ('fail-head-name', "c(_).\n'x y'(_, _).\n"),
+            ('fail-too-large', 'd(_, _) :- %s.\n' % ', '.join('g%d(_)' % i for i in range(25))),
+            ('fail-unsupported-term', 'e(_, _, a/1).\n'),
+            ('fail-head-true', 'f(_).\ntrue.\n')]
     return out
 
 
@@ -266,7 +275,8 @@ def run_shard(spec):
         cp = corpus(tier)
         sub = [c for c in cp if c[0].startswith('vars-')][::5] + [c for c in cp if c[0].startswith('tree-')][::37][:4] + cp[-3:]
         if tier == 'quick':
-            sub = sub[:10]
+            sub = sub[:8]
+        sub = sub + [c for c in cp if c[0].startswith('fail-')]
         idx = 0
         for tname, ttext in sub:
             base = None
